@@ -25,13 +25,13 @@ type Case interface {
 
 // Prop bundles what the driver needs for one property.
 type Prop struct {
-	ID        string
-	Gen       func(r *rand.Rand, tier string) []Case
-	New       func() Case // for decoding a replay file
-	Num       int         // property number used by Corr/All.v check_by_id
-	Classify  func(c Case, msg string) string // known-finding classifier id ("" = unclassified)
-	Rule      string
-	Shrink    func(c Case) []Case
+	ID       string
+	Gen      func(r *rand.Rand, tier string) []Case
+	New      func() Case                     // for decoding a replay file
+	Num      int                             // property number used by Corr/All.v check_by_id
+	Classify func(c Case, msg string) string // known-finding classifier id ("" = unclassified)
+	Rule     string
+	Shrink   func(c Case) []Case
 }
 
 var props = map[string]*Prop{}
@@ -62,7 +62,7 @@ func sxBool(b bool) string {
 	}
 	return "n0"
 }
-func sxL(xs ...string) string { return "(" + strings.Join(xs, " ") + ")" }
+func sxL(xs ...string) string   { return "(" + strings.Join(xs, " ") + ")" }
 func sxList(xs []string) string { return "(" + strings.Join(xs, " ") + ")" }
 func sxOpt(s string, some bool) string {
 	if !some {
@@ -74,8 +74,8 @@ func sxOpt(s string, some bool) string {
 var errCodes = map[string]int{"EOF": 1, "UnexpectedEOF": 2, "MagicMismatch": 3, "HeaderChecksum": 4, "ValueChecksum": 5,
 	"Decompress": 6, "NotFound": 7, "Rejected": 8, "Overflow": 9, "OutOfFuel": 10, "Other": 11, "WrappedEOF": 12}
 
-func sxErr(name string) string { return sxI(errCodes[name]) }
-func sxOk(s string) string     { return "(n0 " + s + ")" }
+func sxErr(name string) string    { return sxI(errCodes[name]) }
+func sxOk(s string) string        { return "(n0 " + s + ")" }
 func sxErrRes(name string) string { return "(n1 " + sxErr(name) + ")" }
 
 // ---- error enum shared with Base/Bytes.v
@@ -107,22 +107,21 @@ func classifyErr(err error) string {
 	return "Other"
 }
 
-
 // ---- run a property
 
 type runSummary struct {
-	Property     string                   `json:"property"`
-	Tier         string                   `json:"tier"`
-	Seed         int64                    `json:"seed"`
-	Evaluations  int                      `json:"evaluations"`
-	Cases        int                      `json:"cases"`
-	Distinct     int                      `json:"distinct_nontrivial"`
-	Kinds        map[string]int           `json:"kinds"`
-	ModelCases   int                      `json:"model_cases"`
-	SxIndex      []int                    `json:"sx_index"` // line of cases.sx -> case id
-	OracleFails  []oracleFail             `json:"oracle_fails"`
-	Samples      []json.RawMessage        `json:"samples"`
-	Extra        map[string]interface{}   `json:"extra,omitempty"`
+	Property    string                 `json:"property"`
+	Tier        string                 `json:"tier"`
+	Seed        int64                  `json:"seed"`
+	Evaluations int                    `json:"evaluations"`
+	Cases       int                    `json:"cases"`
+	Distinct    int                    `json:"distinct_nontrivial"`
+	Kinds       map[string]int         `json:"kinds"`
+	ModelCases  int                    `json:"model_cases"`
+	SxIndex     []int                  `json:"sx_index"` // line of cases.sx -> case id
+	OracleFails []oracleFail           `json:"oracle_fails"`
+	Samples     []json.RawMessage      `json:"samples"`
+	Extra       map[string]interface{} `json:"extra,omitempty"`
 }
 
 type oracleFail struct {
@@ -131,7 +130,6 @@ type oracleFail struct {
 	Finding string `json:"finding"`
 	File    string `json:"file"`
 }
-
 
 func runProp(p *Prop, tier string, seed int64, outDir string, corpusDir string) error {
 	r := rand.New(rand.NewSource(seed))
@@ -164,8 +162,11 @@ func runProp(p *Prop, tier string, seed int64, outDir string, corpusDir string) 
 	defer sxf.Close()
 	var sxIDs []int
 	for i, c := range cases {
-		c.Exec()
-		ok, msg := c.Oracle()
+		pmsg := safeExec(c)
+		ok, msg := false, pmsg
+		if pmsg == "" {
+			ok, msg = c.Oracle()
+		}
 		js, _ := json.Marshal(c)
 		fmt.Fprintf(jl, "%s\n", js)
 		if ev, ok := c.(interface{ Evals() int }); ok {
@@ -189,16 +190,19 @@ func runProp(p *Prop, tier string, seed int64, outDir string, corpusDir string) 
 		if !ok {
 			f := filepath.Join(outDir, fmt.Sprintf("fail_%d.json", i))
 			fin := ""
-			if p.Classify != nil {
+			if p.Classify != nil && pmsg == "" {
 				fin = p.Classify(c, msg)
 			}
 			cc := c
-			if p.Shrink != nil && fin == "" {
+			if p.Shrink != nil && fin == "" && pmsg == "" {
 				cc = shrinkCase(p, c, msg)
 				_, msg = cc.Oracle()
 			}
 			writeReplay(f, p.ID, "failing-input", cc, msg, "")
 			sum.OracleFails = append(sum.OracleFails, oracleFail{CaseID: i, Msg: msg, Finding: fin, File: f})
+		}
+		if pmsg != "" {
+			continue
 		}
 		if t := c.Sx(); t != "" {
 			fmt.Fprintf(sxf, "%d %s\n", p.Num, t)
@@ -215,6 +219,20 @@ func runProp(p *Prop, tier string, seed int64, outDir string, corpusDir string) 
 	sum.SxIndex = sxIDs
 	js, _ := json.MarshalIndent(sum, "", " ")
 	return os.WriteFile(filepath.Join(outDir, "summary.json"), js, 0644)
+}
+
+// safeExec runs a case; a panic that escapes the case's own handling (a panic inside a library call) is an outcome
+func safeExec(c Case) (msg string) {
+	defer func() {
+		if r := recover(); r != nil {
+			msg = fmt.Sprint("panic in a library call: ", r)
+			if len(msg) > 600 {
+				msg = msg[:600]
+			}
+		}
+	}()
+	c.Exec()
+	return ""
 }
 
 type replayFile struct {
